@@ -233,5 +233,8 @@ Spec == Init /\ [][Next]_vars
 \* emission: every `done' state is printed once (ACTION_CONSTRAINT, evaluated on each generated transition)
 EmitDone == stage' = "done" => PrintT(ToJson(d'))
 
+\* the same for -simulate (random walks = random programs; two filled gaps in "pairs" mode)
+EmitDoneInv == (stage = "done" /\ Len(d.fills) = 2) => PrintT(ToJson(d))
+
 TypeOK == stage \in {"start", "ctx", "con", "fill1", "fill2", "done"}
 =============================================================================
